@@ -13,6 +13,7 @@ The mapping is per function and injective on signatures (duplicates get an ordin
 bindings are never merged and no use is ever redirected: only the spelling changes.
 """
 import hashlib
+import re
 import json
 import os
 
@@ -64,7 +65,9 @@ def _binds(p):
 
 
 class _Walker:
-    def __init__(self, table, record):
+    def __init__(self, table, record, types=None):
+        self.types = types or []
+        self.known = set(table.values()) if table else set()
         self.table = table        # sig -> name (None when recording)
         self.record = record      # dict to fill when generating
         self.ren = {}             # hid -> name
@@ -76,14 +79,17 @@ class _Walker:
         for i, b in enumerate(_binds(pat)):
             if b.get("name") == "self":
                 continue
-            raw = "%s|%s|%d" % (ctx, shape, i)
+            ty = self.types[b["t"]] if b.get("t") is not None and b["t"] < len(self.types) else "?"
+            ty = re.sub(r"@[^}]*", "", ty)   # closure types carry file:line:col
+            raw = "%s|%s|%d|%s|%s" % (ctx, shape, i, ty, b.get("mode"))
             sig = hashlib.sha1(raw.encode()).hexdigest()[:16]
             k = self.seen.get(sig, 0)
             self.seen[sig] = k + 1
             sig = "%s#%d" % (sig, k)
             if self.record is not None:
                 self.record[sig] = b["name"]
-            elif self.table is not None and sig in self.table:
+            elif self.table is not None and sig in self.table and b["name"] not in self.known:
+                # a binding that still carries a pinned-tree name was not renamed by the edit: leave it
                 want = self.table[sig]
                 if want != b["name"]:
                     self.ren[b["hid"]] = want
@@ -167,8 +173,8 @@ class _Walker:
                 self.visit(v)
 
 
-def _run(fn, table, record):
-    w = _Walker(table, record)
+def _run(fn, table, record, types=None):
+    w = _Walker(table, record, types)
     for i, p in enumerate(fn.get("params") or []):
         w.bind(p, "param%d" % i)
     w.visit(fn.get("body"))
@@ -181,7 +187,7 @@ def signatures(facts):
     out = {}
     for path, fn in facts["fns"].items():
         rec = {}
-        _run(fn, None, rec)
+        _run(fn, None, rec, facts["types"])
         if rec:
             out[path] = rec
     return out
@@ -207,6 +213,6 @@ def normalise(facts):
     for path, fn in facts["fns"].items():
         t = table.get(path)
         if t:
-            total += _run(fn, t, None)
+            total += _run(fn, t, None, facts["types"])
     facts["_names_normalised"] = total
     return total
